@@ -73,13 +73,24 @@ def corruptions(rng, schema, k=3):
         return out
     for _ in range(k):
         path, rules, ctx = positions[rng.randrange(len(positions))]
-        kind = rng.choice(['unknown_rule', 'unknown_type', 'bad_constraint', 'forbidden_in_of', 'dangling_ref'])
+        kind = rng.choice(['unknown_rule', 'unknown_type', 'bad_constraint', 'forbidden_in_of', 'dangling_ref', 'unknown_name'])
         s = copy.deepcopy(schema)
         target = _follow(s, path)
         if kind == 'unknown_rule':
             target['no_such_rule'] = 1
         elif kind == 'unknown_type':
             target['type'] = rng.choice(['no_such_type', ['string', 'no_such_type'], [['string', 'integer']], [1], ['string', 2]])
+        elif kind == 'unknown_name':
+            # a name of a method the class does not have, alone or inside the list form
+            r = rng.choice(['check_with', 'check_with', 'coerce', 'rename_handler', 'default_setter'])
+            if ctx == 'of' and r != 'check_with':
+                r = 'check_with'
+            good = {'check_with': families.k_pass, 'coerce': families.c_id, 'rename_handler': families.c_id}.get(r)
+            bad = 'no_such_' + r
+            if r == 'default_setter' or rng.random() < 0.4:
+                target[r] = bad
+            else:
+                target[r] = rng.choice([[good, bad], [bad], [bad, good], (good, bad)])
         elif kind == 'bad_constraint':
             present = [r for r in target if r in BAD_CONSTRAINTS]
             r = rng.choice(present) if present and rng.random() < 0.7 else rng.choice(sorted(BAD_CONSTRAINTS))
